@@ -260,7 +260,7 @@ def item_union(I, S):
     return U
 
 
-def run_documents(ctx: Ctx):
+def run_documents(ctx: Ctx, parts=('parse_element', 'process')):
     """DznJsonAst.parse_element (recursion by contract, structural decrease) and DznJsonAst.process against
     specs.parse_spec.decls_of / document_decls: well-formed documents of ANY size and ANY nesting of namespaces."""
     from props.gen_unbounded import ns_inv
@@ -361,7 +361,7 @@ def run_documents(ctx: Ctx):
                                                          'structural decrease; well-formed elements of any size)'
         ctx.functions[f'{JA}.DznJsonAst.process'] = 'proved for well-formed documents of any size and nesting ' \
                                                    '(parse_element by contract)'
-        for kind in KIND_CLASS:
+        for kind in (KIND_CLASS if 'parse_element' in parts else ()):
             def mk(p):
                 parser, olds = new_parser(p, True)
                 item = I.wrap(T('junion', U), z3.Const('in_item', U.sort), p)
@@ -386,12 +386,13 @@ def run_documents(ctx: Ctx):
                                 f'{JA}.DznJsonAst.parse_element', 'the recursive call is made on an element of the '
                                                                   "namespace element's own list (structurally smaller)")
                     ctx.settle(o, PROVED if dd else REFUTED, 'syntactic', '' if dd else 'recursive call on another value')
-        # process(): parse_element by its contract
+        # process(): parse_element by its contract.  The parser object is in an ARBITRARY earlier state (file contents of
+        # any earlier parse): the result depends on the document only (C16: processing again does not accumulate)
         state['force'] = True
         pr = I.get_function(f'{JA}.DznJsonAst.process')
-        for kind in KIND_CLASS:
+        for kind in (KIND_CLASS if 'process' in parts else ()):
             def mk2(p):
-                parser, _ = new_parser(p, False)
+                parser, _ = new_parser(p, True)
                 doc = I.wrap(T('rec', S['root_doc']), z3.Const('in_doc', I.sorts.sort_of_rec(S['root_doc'])), p)
                 parser.fields['_ast'] = doc
                 return [parser], [doc]
@@ -401,7 +402,8 @@ def run_documents(ctx: Ctx):
                 return i.getattr_(fct, kind, p)
             refines(ctx, f'json_ast.process[{kind}]', f'{JA}.DznJsonAst.process', impl2,
                     lambda i, p, a, k, kind=kind: i.call_function(spec.globals['document_decls'], [kind] + a, k, p),
-                    mk2, witness=None, text=f'process().{kind} == document_decls({kind!r}, document)')
+                    mk2, witness=None, text=f'process().{kind} == document_decls({kind!r}, document), whatever the parser '
+                                            f'object processed before')
     finally:
         state['force'] = False
         I.class_invs.clear()
